@@ -30,12 +30,13 @@ def plan(tier):
     q = tier == "quick"
     return [dict(unit="reports", n=300 if q else 8000, builds=["py", "so"], case_timeout=180),
             dict(unit="fi", n=100 if q else 3000, builds=["py"], case_timeout=180),
+            dict(unit="mixed", n=100 if q else 3000, builds=["py"], case_timeout=180),
             dict(unit="replay", n=200 if q else 6000, builds=["py", "so"], case_timeout=180)]
 
 
 def floors(tier):
     return {"min_decided": 700, "counters": {"report_evals": 4000, "tx_rows": 5000, "runs_no_trades": 15, "runs_with_shorts": 40, "runs_shared_tickers": 40,
-                                             "replays": 200, "fi_runs": 80}, "max_undecided_frac": 0.3}
+                                             "replays": 200, "fi_runs": 80, "mixed_runs": 70}, "max_undecided_frac": 0.3}
 
 
 def close(a, b, rtol=1e-9, atol=1e-12):
@@ -185,6 +186,27 @@ def case_fi(cs):
     return common.result(common.HELD, sig=sig, nt=True, cnt=cnt, sample=w5.sample_of(spec))
 
 
+def case_mixed(cs):
+    """bond-like and hedge securities held under an ordinary market-value strategy: every report stays value-based"""
+    ins.reset()
+    spec = w5.gen(cs)
+    run = w5.run_backtest(spec, market_value=True)
+    sig = ["mixed"] + w5.signature(spec)
+    cnt = {}
+    if run.exc is not None:
+        if isinstance(run.exc, ZeroDivisionError) or common.is_guard_exc(run.exc):
+            return common.result(common.OOD, sig=sig, why="zero base / sizing guard")
+        return common.result(common.INC, sig=sig, why="bt raised %s: %s" % (type(run.exc).__name__, str(run.exc)[:100]))
+    common.bump(cnt, "mixed_runs")
+    try:
+        out = check_reports(run, cnt, fi=False)
+    except Exception as e:
+        return common.result(common.VIOL, sig=sig, nt=True, cnt=cnt, mech="c18_report_raises", witness={"case_seed": cs, "exception": "%s: %s" % (type(e).__name__, str(e)[:160])})
+    if out:
+        return common.result(common.VIOL, sig=sig, nt=True, cnt=cnt, mech=out[0], witness=dict(out[1], case_seed=cs, kinds=dict(zip(spec["names"], spec["kinds"])), root="market-value strategy"))
+    return common.result(common.HELD, sig=sig, nt=True, cnt=cnt, sample=w5.sample_of(spec))
+
+
 def case_replay(cs):
     ins.install()
     ins.reset()
@@ -248,6 +270,8 @@ def case_replay(cs):
 def run_case(unit, cs, idx, build, params):
     if unit == "fi":
         return case_fi(cs)
+    if unit == "mixed":
+        return case_mixed(cs)
     if unit == "replay":
         return case_replay(cs)
     return case_reports(cs)
